@@ -82,7 +82,34 @@ def h_convolve(H):
         S.explore(body)
 
 
-@harness(PROPERTY, "ns_optim_fft", functions=["ibldsp.fourier:ns_optim_fft"], clause="the fast-size helper returns the smallest 2^a 3^b not below its argument")
+def replay_optim(vals, oid):
+    smooth = sorted({2 ** a * 3 ** b for a in range(0, 30) for b in range(0, 20)})
+    bad = []
+    for ns in list(range(1, 3001)) + [s_ + d_ for s_ in smooth if s_ < 14155776 for d_ in (0, 1)]:
+        want = next(s_ for s_ in smooth if s_ >= ns)
+        try:
+            got = int(F.ns_optim_fft(ns))
+        except Exception as e:
+            got = repr(e)[:60]
+        if got != want:
+            bad.append({"ns": ns, "returned": got, "smallest 2^a 3^b not below it": want})
+            if len(bad) >= 3:
+                break
+    return {"failed": bool(bad), "cases": bad}
+
+
+def replay_fscale(vals, oid):
+    bad = []
+    for n in range(1, 65):
+        for si in (0.5, 1 / 30000):
+            want = np.where(np.arange(n) <= n // 2, np.arange(n), np.arange(n) - n) / n / si
+            f2, f1 = F.fscale(n, si), F.fscale(n, si, one_sided=True)
+            if f2.shape != (n,) or not np.allclose(f2, want, rtol=1e-12, atol=0) or f1.shape != (n // 2 + 1,) or not np.allclose(f1, want[:n // 2 + 1], rtol=1e-12, atol=0):
+                bad.append({"ns": n, "si": si, "two_sided_length": int(f2.shape[0]), "one_sided_length": int(f1.shape[0])})
+    return {"failed": bool(bad), "cases": bad[:3]}
+
+
+@harness(PROPERTY, "ns_optim_fft", functions=["ibldsp.fourier:ns_optim_fft"], replay=replay_optim, clause="the fast-size helper returns the smallest 2^a 3^b not below its argument")
 def h_optim(H):
     # the table has no free variable: it is folded natively; the function is decided on each interval (sz[k-1], sz[k]] by the searchsorted specification
     S = H.session("ns_optim")
@@ -172,7 +199,7 @@ def h_reduce(H):
         S.explore(body)
 
 
-@harness(PROPERTY, "fscale", functions=["ibldsp.fourier:fscale"], clause="the frequency scale equals the DFT bin frequencies (positive Nyquist)")
+@harness(PROPERTY, "fscale", functions=["ibldsp.fourier:fscale"], replay=replay_fscale, clause="the frequency scale equals the DFT bin frequencies (positive Nyquist)")
 def h_fscale(H):
     S = H.session("fscale")
 
